@@ -53,8 +53,8 @@ pub fn respell(n: &Node, variant: usize) -> String {
         }
         1 => {
             let o = PrintOpts { spaced_braces: true, ..Default::default() };
-            const SEPS: [&str; 6] = [" ", "\n", "\t ", " # c(\n", "", "  \r\n"];
-            format!("(?x)# lead\n{}\n# tail", join(&n.tokens(&o), |i| SEPS[((h >> (i % 48)) as usize + i) % SEPS.len()]))
+            const SEPS: [&str; 7] = [" ", "\n", "\t ", " # c(\n", "", "  \r\n", " #é😀 )x\n"];
+            format!("(?x)# léad €\n{}\n# tail", join(&n.tokens(&o), |i| SEPS[((h >> (i % 48)) as usize + i) % SEPS.len()]))
         }
         2 => format!("(?#a){}(?#)", join(&n.tokens(&PrintOpts::default()), |i| if i % 2 == 0 { "(?#x|y\\))" } else { "(?# )" })),
         3 => n.to_pattern_with(&PrintOpts { lit_style: 5, ..Default::default() }),
@@ -243,7 +243,7 @@ impl PatProp for RoundTrip {
 fn flag_bases() -> Vec<Node> {
     let mut out = vec![];
     let mut cfg = gen::common_cfg();
-    cfg.leaves = vec![Lit('a'), Lit('B'), Any, Class(false, vec![('a', 'b')]), Assert(A::StartText), Assert(A::EndText), Lit('\n'), AnyNl, Assert(A::StartLine), Assert(A::EndLine)];
+    cfg.leaves = vec![Lit('a'), Lit('B'), Lit('é'), Any, Class(false, vec![('a', 'b')]), Assert(A::StartText), Assert(A::EndText), Lit('\n'), AnyNl, Assert(A::StartLine), Assert(A::EndLine)];
     for b in space(&cfg, 3, false) {
         for (on, off) in [("i", ""), ("s", ""), ("m", ""), ("U", ""), ("is", "m"), ("", "i")] {
             out.push(Flags(on.into(), off.into(), Box::new(b.clone())));
@@ -268,7 +268,7 @@ pub fn run(ctx: &RunCtx) -> Outcome {
     let prods = product_space(true, 1);
     let fb = flag_bases();
     let texts = gen::text_set(&gen::SIGMA5, 2, 4);
-    let ftexts = gen::texts(&['a', 'A', 'b', 'B', '\n'], 3);
+    let ftexts = gen::texts(&['a', 'A', 'B', 'é', 'É', '\n'], 3);
     // round trip first
     {
         let rt = RoundTrip;
